@@ -62,7 +62,8 @@ def setup_block(mk, inst, stage, flags=('done',), stub_comm=True, M=1):
                     L.u[m] = mk.vec(f'u[{p},{l},{m}]')
                     L.f[m] = mk.vec(f'f[{p},{l},{m}]', 'f')
                 L.status.unlocked = True
-                L.status.updated = True
+                # `updated` is set by sweeps / predict and cleared by compute_residual: either value occurs at a stage entry
+                L.status.updated = mk.bool(f'updated[{p},{l}]')
                 L.status.residual = mk.real(f'res[{p},{l}]')
         if p < d:
             S.status.stage = 'DONE'
